@@ -30,7 +30,7 @@ EXTRA = {"C05_B": ["C17"], "C15_B": ["C15", "C16"], "C16_B": ["C16", "C15"], "C1
          "C01_K": ["C01", "C03"], "C01_L": ["C01", "C15", "C03"], "C05_K": ["C05", "C15", "C17"], "C05_L": ["C05", "C17"],
          "C02_N": ["C02", "C13"], "C06_M": ["C06", "C13"], "C04_M": ["C04", "C13"], "C08_N": ["C08", "C13"], "C04_N": ["C04", "C14"],
          "C08_M": ["C08", "C14"], "C05_M": ["C05", "C15"], "C05_N": ["C05", "C03"], "C09_N": ["C09", "C15", "C16"], "C15_N": ["C15", "C16"],
-         "C20_M": ["C20", "C17"], "C13_M": ["C13", "C15"]}
+         "C20_M": ["C20", "C17"], "C13_M": ["C13", "C15"], "C01_M": ["C01", "C03"], "C01_N": ["C01", "C17"]}
 
 
 def sh(cmd):
